@@ -119,6 +119,13 @@ func (s *Solver) CheckSat(timeoutMs int) string {
 				continue
 			}
 			if strings.HasPrefix(l, "(error") {
+				if strings.Contains(l, "canceled") {
+					// a timeout that fired outside check-sat (z3 reports it as an error)
+					if res == "" {
+						res = "unknown"
+					}
+					continue
+				}
 				s.Errors = append(s.Errors, l)
 				res = "error"
 				continue
@@ -136,6 +143,12 @@ func (s *Solver) CheckSat(timeoutMs int) string {
 			res = "error"
 		}
 		ch <- ans{res, nil}
+	}()
+	defer func() {
+		if !s.Dead {
+			// the timeout option also applies to later push/assert commands: lift it again
+			s.Send("(set-option :timeout 4294967295)\n")
+		}
 	}()
 	grace := time.Duration(timeoutMs)*time.Millisecond + time.Duration(timeoutMs/2)*time.Millisecond + 3*time.Second
 	var a ans
